@@ -763,7 +763,7 @@ func n7Recover(c *Ctx, fn *ssa.Function, label, privType string) {
 }
 
 func init() {
-	register("N2", "allocations sized by script integers are bounded: every make/strings.Repeat/Grow whose size depends on an integer supplied by the script (unpacked into a Go int, or obtained from AsInt32/Int64/Uint64) is dominated by an upper-bound test on that value, or takes the minimum with a length", 3, ruleN2)
+	register("N2", "allocations sized by script integers are bounded: every make/strings.Repeat/Grow whose size depends on an integer supplied by the script (unpacked into a Go int, or obtained from AsInt32/Int64/Uint64) is dominated by an upper-bound test on that value, or takes the minimum with a length", 1, ruleN2)
 	register("N5", "printing never restarts the cycle path: a String method of a Value type that can hold arbitrary values may not print a contained value through a dynamic Value.String() call (which begins with an empty path); it must go through the path-carrying writer", 20, ruleN5)
 }
 
